@@ -80,7 +80,7 @@ def observe(traces: List[Dict[str, Any]], module: str, shards: int = 8, per_shar
     """Per trace: {clause: first event index at which it is false}."""
     if not traces:
         return []
-    scratch = tempfile.mkdtemp(prefix="verif-obs-")
+    scratch = tlc.scratch_dir("obs")
     try:
         n = len(traces)
         shards = max(1, min(shards, n // per_shard_min + 1))
@@ -106,7 +106,7 @@ def conform(traces: List[Dict[str, Any]], module: str, cfg_text: str, shards: in
     """Per trace: (highest matched position, length+1); accepted iff equal."""
     if not traces:
         return []
-    scratch = tempfile.mkdtemp(prefix="verif-conf-")
+    scratch = tlc.scratch_dir("conf")
     try:
         n = len(traces)
         shards = max(1, min(shards, n // 10 + 1))
@@ -129,7 +129,7 @@ def conform(traces: List[Dict[str, Any]], module: str, cfg_text: str, shards: in
 
 def mc(module: str, cfgs: List[Dict[str, Any]], cfg_text: str, workers: int = 16, timeout: int = 3000,
        coverage: bool = False, env_extra: Optional[Dict[str, str]] = None) -> Dict[str, Any]:
-    scratch = tempfile.mkdtemp(prefix="verif-mc-")
+    scratch = tlc.scratch_dir("mc")
     try:
         path = os.path.join(scratch, "cfgs.json")
         with open(path, "w") as f:
@@ -146,7 +146,7 @@ def mc(module: str, cfgs: List[Dict[str, Any]], cfg_text: str, workers: int = 16
 
 def simulate(module: str, cfgs: List[Dict[str, Any]], cfg_text: str, num: int, depth: int, seed: int) -> List[Tuple[int, Any]]:
     """Returns [(cfg index (1-based), elog), ...]."""
-    scratch = tempfile.mkdtemp(prefix="verif-sim-")
+    scratch = tlc.scratch_dir("sim")
     try:
         path = os.path.join(scratch, "cfgs.json")
         with open(path, "w") as f:
